@@ -105,7 +105,13 @@ impl Assignment {
             bail!("cannot modify a pre-existing variable when unpacking");
         };
 
-        let skip = if is_modify { 1 } else { 0 };
+        // `modify` writes the variable the function captured: the name is looked up outside
+        // of the function, not only outside of the block the statement is in
+        let skip = if is_modify {
+            user_data.scopes_in_function().unwrap_or(1)
+        } else {
+            0
+        };
 
         let name = self.idents[0].name();
 
